@@ -40,23 +40,23 @@ Open Scope Z_scope.
 (* ------------------------------------------------------ configuration as written *)
 
 (* processor reference "k" / "B.k": owner B (created_by), name k, condition *)
-Record procref := { pr_owner : option Z; pr_name : Z; pr_cond : cond }.
+Record procref := PR { pr_owner : option Z; pr_name : Z; pr_cond : cond }.
 
 (* one end of a connection: any subset of stream / flow / processor may be
    written.  at: 0 = start, 1 = end, 2 = anything else *)
-Record endpoint := { ep_stream : option Z; ep_flow : option (Z * Z); ep_proc : option procref }.
-Definition conn := (endpoint * endpoint)%type.
+Record endpoint := EP { ep_stream : option Z; ep_flow : option (Z * Z); ep_proc : option procref }.
+Record conn := CN { c_from : endpoint; c_to : endpoint }.
 
 (* processor types: 0 = `processor:` left empty, 1 Filter, 2 GenerateResponse,
    3 MockProcessor, 4 Limiter, anything else = unknown to the registry.
    parameter keys: 1 header (a Filter criterion), 2 quota_id (of the quota the
    configuration defines), 3 status, 4 body, 5 some other key, 6 quota_id naming
    a quota that does not exist *)
-Record pdecl := { pd_key : Z; pd_dot : bool; pd_type : Z; pd_params : list Z }.
+Record pdecl := PD { pd_key : Z; pd_dot : bool; pd_type : Z; pd_params : list Z }.
 
-Record flowcfg := { fc_name : Z; fc_url : bool; fc_procs : list pdecl;
+Record flowcfg := FC { fc_name : Z; fc_url : bool; fc_procs : list pdecl;
                     fc_req : list conn; fc_res : list conn }.
-Record config := { cf_flows : list flowcfg; cf_quota : bool }.
+Record config := CF { cf_flows : list flowcfg; cf_quota : bool }.
 
 Definition memZ (x : Z) (l : list Z) : bool := existsb (Z.eqb x) l.
 
@@ -89,15 +89,17 @@ Definition ep_named (e : endpoint) : bool :=
 Definition conns_ok (cs : list conn) : bool :=
   match cs with
   | [] => false
-  | _ => forallb (fun c => ep_named (fst c) && ep_named (snd c)) cs
+  | _ => forallb (fun c => ep_named (c_from c) && ep_named (c_to c)) cs
   end.
 
 (* the param key as written in the YAML: 6 is written as quota_id too *)
 Definition param_written (p : Z) : Z := if p =? 6 then 2 else p.
 
-(* validateProcessor: type named, no '.' in the key, no parameter key twice *)
+(* validateProcessor: type named, no parameter key twice.  (Its test "the key
+   contains no '.'" reads Processor.Key, which GetFlows fills in only AFTER the
+   validation: it never fires, so [pd_dot] is not consulted - as coded.) *)
 Definition decl_struct_ok (p : pdecl) : bool :=
-  negb (pd_type p =? 0) && negb (pd_dot p) && nodupZ (map param_written (pd_params p)).
+  negb (pd_type p =? 0) && nodupZ (map param_written (pd_params p)).
 
 Definition flow_struct_ok (f : flowcfg) : bool :=
   fc_url f && conns_ok (fc_req f) && conns_ok (fc_res f) && forallb decl_struct_ok (fc_procs f).
@@ -219,7 +221,8 @@ Section Builder.
   (* flowBuilder.buildConnection *)
   Definition build_conn (rec : Z -> list Z -> list conn -> bstate -> bres)
              (cur : Z) (stack : list Z) (c : conn) (s : bstate) : bres :=
-    let '(fr, to) := c in
+    let fr := c_from c in
+    let to := c_to c in
     let '(b, foreign) := s in
     if match ep_proc fr with Some r => negb (from_cond_ok cur r) | None => false end
     then BErr                                         (* "invalid condition" *)
@@ -342,6 +345,19 @@ Definition norm (c : cond) : cond := if c =? 0 then star else c.
 Definition pair_eqb (a b : cond * key) : bool := (fst a =? fst b) && (snd a =? snd b).
 Definition visited (vis : list (cond * key)) (p : cond * key) : bool := existsb (pair_eqb p) vis.
 
+(* the connection loop of dfsDetectCycles / detectCircularConnections: the first
+   search that does not come back clean ends it *)
+Fixpoint dfs_edges (rec : key -> cond -> dres) (es : list edge) : dres :=
+  match es with
+  | [] => DOk
+  | (c, Some t) :: rest =>
+      match rec t c with
+      | DOk => dfs_edges rec rest
+      | other => other
+      end
+  | (_, None) :: rest => dfs_edges rec rest
+  end.
+
 Section Detect.
   Variable g : dgraph.
 
@@ -354,30 +370,11 @@ Section Detect.
     | S f =>
         let p := (norm c, k) in
         if visited vis p then DCycle
-        else
-          (fix go (es : list edge) : dres :=
-             match es with
-             | [] => DOk
-             | (c', Some t) :: rest =>
-                 match dfs f (p :: vis) t c' with
-                 | DOk => go rest
-                 | other => other
-                 end
-             | (_, None) :: rest => go rest
-             end) (edges_of g k)
+        else dfs_edges (dfs f (p :: vis)) (edges_of g k)
     end.
 
   (* one search per connection of a start processor, each with an empty map *)
-  Fixpoint dfs_from (fuel : nat) (es : list edge) : dres :=
-    match es with
-    | [] => DOk
-    | (c, Some t) :: rest =>
-        match dfs fuel [] t c with
-        | DOk => dfs_from fuel rest
-        | other => other
-        end
-    | (_, None) :: rest => dfs_from fuel rest
-    end.
+  Definition dfs_from (fuel : nat) (es : list edge) : dres := dfs_edges (dfs fuel []) es.
 
   Fixpoint dfs_nodes (fuel : nat) (ns : list (key * list edge)) : dres :=
     match ns with
@@ -522,57 +519,46 @@ Definition exec_fuel (fs : list flow) : nat :=
 
 (* ---------------------------------------------------- correspondence entries *)
 
-Definition procref_enc := (option Z * Z * Z)%type.
-Definition endpoint_enc := (option Z * option (Z * Z) * option procref_enc)%type.
-Definition conn_enc := (endpoint_enc * endpoint_enc)%type.
-Definition flowcfg_enc :=
-  (Z * bool * list (Z * bool * Z * list Z) * list conn_enc * list conn_enc)%type.
-Definition config_enc := (list flowcfg_enc * bool)%type.
-
-Definition dec_procref (e : procref_enc) : procref :=
-  let '(o, n, c) := e in {| pr_owner := o; pr_name := n; pr_cond := c |}.
-Definition dec_endpoint (e : endpoint_enc) : endpoint :=
-  let '(s, f, p) := e in
-  {| ep_stream := s; ep_flow := f; ep_proc := option_map dec_procref p |}.
-Definition dec_conn (e : conn_enc) : conn := (dec_endpoint (fst e), dec_endpoint (snd e)).
-Definition dec_flowcfg (e : flowcfg_enc) : flowcfg :=
-  let '(n, u, ps, rq, rs) := e in
-  {| fc_name := n; fc_url := u;
-     fc_procs := map (fun p => let '(k, dt, ty, pa) := p in
-                               {| pd_key := k; pd_dot := dt; pd_type := ty; pd_params := pa |}) ps;
-     fc_req := map dec_conn rq; fc_res := map dec_conn rs |}.
-Definition dec_config (e : config_enc) : config :=
-  {| cf_flows := map dec_flowcfg (fst e); cf_quota := snd e |}.
+(* The harness writes configurations with the record constructors above (PR, EP,
+   CN, PD, FC, CF) and the case constructors below: no tuples, so that coqc
+   elaborates the case files quickly. *)
 
 (* verdict code: 0 accepted, 1 / 2 / 3 rejected at that stage, 7 fuel *)
 Definition verdict_code (v : verdict) : Z :=
   match v with Accept _ => 0 | Reject s => s | LoaderFuel => 7 end.
 
-(* suite "load": (configuration, observed verdict code) *)
-Definition case_load := (config_enc * Z)%type.
+(* suite "load": configuration, observed verdict code *)
+Inductive case_load := LoadCase (cf : config) (code : Z).
 Definition run_load (k : case_load) : option Z :=
-  let m := verdict_code (load (dec_config (fst k))) in
-  if m =? snd k then None else Some m.
+  let '(LoadCase cf code) := k in
+  let m := verdict_code (load cf) in
+  if m =? code then None else Some m.
 
-(* suite "txn": (configuration, (selection, selection as response after a
-   hand-over), names of the Filters whose header is present, is-request,
-   observed (events (flow, key, is-request, condition), result code))
+Inductive sel_e := SEL (start user end_ : list Z).
+Inductive ev_e := EV (fl : Z) (k : Z) (isreq : bool) (c : Z).
+Definition sel_of (s : sel_e) : sel_enc := let '(SEL a u z) := s in (a, u, z).
+Definition ev_of (e : ev_e) : Z * Z * bool * Z := let '(EV f k q c) := e in (f, k, q, c).
+
+(* suite "txn": configuration, selection, (has-second, selection as response
+   after a hand-over), names of the Filters whose header is present, is-request,
+   observed events, observed result code.
    result code as in C04: 0 nothing special, 1 answered by a processor, 2 error,
    3 fuel; 8 = the model does not accept the configuration *)
-Definition case_txn :=
-  (config_enc * (sel_enc * option sel_enc) * list Z * bool * (list (Z * Z * bool * Z) * Z))%type.
+Inductive case_txn :=
+  TxnCase (cf : config) (s1 : sel_e) (has2 : bool) (s2 : sel_e) (hdrs : list Z)
+          (isreq : bool) (obs : list ev_e) (code : Z).
 
 Definition run_txn (k : case_txn) : option (list (Z * Z * bool * Z) * Z) :=
-  let '(ce, (s1, s2), hdrs, isreq, (obs, code)) := k in
-  let cf := dec_config ce in
+  let '(TxnCase cf s1 has2 s2 hdrs isreq obs code) := k in
   match load cf with
   | Accept fs =>
       let beh := beh_of cf hdrs in
       let fuel := exec_fuel fs in
       let r := if isreq
-               then run_req fuel beh (dec_sel fs s1) (option_map (dec_sel fs) s2)
-               else run_res fuel beh (dec_sel fs s1) None in
+               then run_req fuel beh (dec_sel fs (sel_of s1))
+                            (if has2 then Some (dec_sel fs (sel_of s2)) else None)
+               else run_res fuel beh (dec_sel fs (sel_of s1)) None in
       let m := (map enc_event (fst r), result_code beh r) in
-      if eq_events (fst m) obs && (snd m =? code) then None else Some m
+      if eq_events (fst m) (map ev_of obs) && (snd m =? code) then None else Some m
   | _ => Some ([], 8)
   end.
